@@ -406,6 +406,15 @@ impl<'a, H: Header> TagIter<'a, H> {
         &&& self.next_tag_offset <= self.buffer@.len()
         &&& self.next_tag_offset % 8 == 0
     }
+    /// what holds in EVERY state a caller can observe, including after a controlled panic inside
+    /// `next` was caught and the iterator is used again (unwind safety): the cursor may have been
+    /// advanced past the end before the panic, but it is always a multiple of 8
+    pub open spec fn wf_weak(&self) -> bool {
+        &&& slice_wf(self.buffer)
+        &&& slice_addr(self.buffer) as int % 8 == 0
+        &&& self.buffer@.len() % 8 == 0
+        &&& self.next_tag_offset % 8 == 0
+    }
     /// header stored at byte offset `off` of the buffer
     pub open spec fn hdr_at_off(&self, off: int) -> H {
         decode::<H>(mem_at(slice_prov(self.buffer), slice_addr(self.buffer) + off, size_of::<H>() as int))
@@ -425,11 +434,11 @@ impl<'a, H: Header> TagIter<'a, H> {
 //@  sigrewrite /Option<Self::Item>/ => /Option<&'a DynSizedStructure<H>>/
 //@  rewrite /&self\.buffer\[\s*(\w+)\s*\.\.\s*(\w+)\s*\]/ => /vslice(self.buffer, \1, \2)/
 //@  rewrite /DynSizedStructure::ref_from_slice\((\w+)\)\s*\.unwrap\(\)/ => /res_unwrap(DynSizedStructure::ref_from_slice(\1))/
-//@  prologue proof { old(self).hdr_at_off(old(self).next_tag_offset as int).lemma_hdr_layout(); lemma_round8_props(old(self).next_tag_offset + old(self).hdr_at_off(old(self).next_tag_offset as int).declared_total()); }
+//@  prologue proof { old(self).hdr_at_off(old(self).next_tag_offset as int).lemma_hdr_layout(); if old(self).next_tag_offset <= old(self).buffer@.len() { lemma_round8_props(old(self).next_tag_offset + old(self).hdr_at_off(old(self).next_tag_offset as int).declared_total()); } }
 //@  spec:
-//@    requires old(self).wf(), panics_allowed(), size_of::<H>() == 8,
+//@    requires old(self).wf_weak(), panics_allowed(), size_of::<H>() == 8,
 //@    ensures
-//@        final(self).wf(), final(self).buffer == old(self).buffer,
+//@        old(self).wf(), final(self).wf(), final(self).buffer == old(self).buffer,
 //@        // exhausted iterators stay exhausted
 //@        old(self).next_tag_offset == old(self).buffer@.len() ==> r is None && final(self).next_tag_offset == old(self).next_tag_offset,
 //@        old(self).next_tag_offset < old(self).buffer@.len() ==> r is Some,
